@@ -21,16 +21,44 @@ def norm(resp):
     return re.sub(r' end=\d+', '', resp)
 
 
-def check(c, lines, tag):
+def stretch(resp, p, unit, k0, k):
+    """What the lexical rules prescribe when a run of `k0` copies of `unit` starting at byte offset `p` of line 1 is
+    lengthened to `k` copies: the token that contains the run gets the longer text, every token (or error) that starts
+    after the start of the run moves right by the added bytes, nothing else changes."""
+    d = len(unit) * (k - k0)
+    old, new = (unit * k0).hex(), (unit * k).hex()
+    out = []
+    for seg in resp.split(' | '):
+        parts = seg.split(' ')
+        for i, t in enumerate(parts):
+            f = t.split(':')
+            if len(f) == 4 and f[1] == '1':
+                if old and old in f[3] and (f[0] == 'str' or (f[0] == 'ident' and int(f[2]) - 1 <= p)): f[3] = f[3].replace(old, new, 1)   # a string token is located at the token that follows it
+                if int(f[2]) - 1 > p: f[2] = str(int(f[2]) + d)
+                parts[i] = ':'.join(f)
+            elif parts[0] == 'err' and i == 1 and seg is resp.split(' | ')[0] and int(t) - 1 > p:
+                parts[i] = str(int(t) + d)
+        out.append(' '.join(parts))
+    return ' | '.join(out)
+
+
+SPEC_MAX = 1200     # Spec.lexLine is written for clarity, not speed (quadratic): beyond this the expectation comes from `stretch`
+
+
+def check(c, lines, tag, expect=None):
     req = ' '.join(sh_hex(l.encode('utf-8')) for l in lines)
     hi = c.harness.ask('lexlines ' + req)
     mo = c.model.ask('lexlines ' + req)
     if hi != mo:
         c.disagree('lex', dict(lines=lines), hi[:300], mo[:300])
-    sp = c.model.ask('oracle lex ' + req)
-    if norm(hi) != sp:
+    if max(len(l.encode('utf-8')) for l in lines) > SPEC_MAX:
+        sp = expect
+        c.count('expectation-by-stretching')
+    else:
+        sp = c.model.ask('oracle lex ' + req)
+    if sp is not None and norm(hi) != sp:
         kind = 'error-column' if ('err' in hi and 'err' in sp) else 'tokens'
-        c.violation('lex:' + kind, 'lexer and lexical rules disagree: impl=%s spec=%s' % (norm(hi)[:200], sp[:200]), dict(lines=lines))
+        c.violation('lex:' + kind, 'lexer and lexical rules disagree: impl=%s spec=%s' % (norm(hi)[-200:], sp[-200:]), dict(lines=lines, expect=expect, shape=[(len(l), l[:40], l[-40:]) for l in lines][:4] + [len(lines)]))
     c.traces_validated += 1
     triv = hi.startswith('ok end=') and ' | ok ' not in hi.replace('semi', 'X', 1)[:0] and False
     key = tuple(lines) if (':' in hi.split(' | ')[0] or 'err' in hi) else None
@@ -72,6 +100,18 @@ def campaign(c):
     # directed: strings carried across lines
     for a, b in [('f("a"', '"b");'), ('"a"', '"b" "c" ;'), ('x("|41 4"', '"2|");'), ('f(""', ');'), ('"only"', ''), ('f("a" // c', '"b")')]:
         check(c, [a, b, ';'], 'carry')
+    # long lines and many lines: columns and line numbers around 2^8 and 2^16 (tokens after a long string, after long
+    # whitespace, after a long comment-free identifier; an un-lexable character there)
+    for col in [255, 256, 257, 65535, 65536, 65537, 70012] + ([] if c.quick else [4095, 4096, 131072, 1 << 20]):
+        for pre, unit, k, post in [('let p = "', 'A', col - 12, '" )'), ('let p = "', 'A', col - 12, '" @'), ('', ' ', col - 1, 'x y'),
+                                   ('', 'é', (col - 1) // 2, ' ' * ((col - 1) % 2) + ' = 5'), ('', 'a', col - 1, '|'), ('f(', '"" ', col // 3, ');')]:
+            k0 = 3
+            short = ' '.join(sh_hex(l.encode('utf-8')) for l in [pre + unit * k0 + post, ';'])
+            exp = stretch(c.model.ask('oracle lex ' + short), len(pre.encode()), unit.encode(), k0, k)
+            check(c, [pre + unit * k + post, ';'], 'longline', exp)
+    for nl in [255, 256, 65535, 65536, 65541]:
+        check(c, [''] * (nl - 1) + ['x "s" y @'], 'manylines')
+        check(c, ['"a"'] + [''] * (nl - 2) + ['"b" ;'], 'manylines')
     for lines in [['"only"'], ['f(1);', '"junk"'], ['f(1);', '""'], ['""', '', '  // c'], ['f("a"', '"b"'], ['f(1);']]:
         check(c, lines, 'eof')
     # direct probe of the statement (theorem pending_empty_kept)
@@ -83,4 +123,4 @@ def campaign(c):
 
 def replay(c, data):
     d = data.get('replay') or data['disagreements'][0]['request']
-    check(c, d['lines'], 'replay')
+    check(c, d['lines'], 'replay', d.get('expect'))
